@@ -7,6 +7,7 @@ CONSTANTS
   Alias <- AliasInt
   IntVal <- IntValInt
   Travs <- AllTravs
+  LenEnabled = TRUE
   MaxSteps = 5
   ViewHist = 0
   EmitAll = TRUE
